@@ -206,7 +206,7 @@ func verifC09Rank(rx, ry, rz int) {}
 
 //@ func newMask(n int) (m mask)
 //@   props C06
-//@   requires 0 <= n
+//@   requires 0 <= n <= 281474976710656
 //@   ensures len(m) == (n+31)/32 && (len(m) == 0 || fresh(m)) && forall w int :: 0 <= w < len(m) ==> m[w] == bv32(0)
 
 //@ func (m mask) set(i int)
@@ -218,26 +218,26 @@ func verifC09Rank(rx, ry, rz int) {}
 
 //@ func (m mask) and(n mask)
 //@   props C06
-//@   requires len(n) >= len(m)
+//@   requires len(n) >= len(m) && ref(n) != ref(m)
 //@   modifies m
 //@   ensures forall w int :: 0 <= w < len(m) ==> m[w] == (old(m[w]) & old(n[w]))
 //@   loop 1:
 //@     invariant 0 <= idx() <= len(m) && unchanged(m)
 //@     invariant forall w int :: 0 <= w < idx() ==> m[w] == (old(m[w]) & old(n[w]))
 //@     invariant forall w int :: idx() <= w < len(m) ==> m[w] == old(m[w])
-//@     invariant ref(n) != ref(m) ==> forall w int :: 0 <= w < len(n) ==> n[w] == old(n[w])
+//@     invariant forall w int :: 0 <= w < len(n) ==> n[w] == old(n[w])
 //@     decreases len(m) - idx()
 
 //@ func (m mask) or(n mask)
 //@   props C06
-//@   requires len(n) >= len(m)
+//@   requires len(n) >= len(m) && ref(n) != ref(m)
 //@   modifies m
 //@   ensures forall w int :: 0 <= w < len(m) ==> m[w] == (old(m[w]) | old(n[w]))
 //@   loop 1:
 //@     invariant 0 <= idx() <= len(m) && unchanged(m)
 //@     invariant forall w int :: 0 <= w < idx() ==> m[w] == (old(m[w]) | old(n[w]))
 //@     invariant forall w int :: idx() <= w < len(m) ==> m[w] == old(m[w])
-//@     invariant ref(n) != ref(m) ==> forall w int :: 0 <= w < len(n) ==> n[w] == old(n[w])
+//@     invariant forall w int :: 0 <= w < len(n) ==> n[w] == old(n[w])
 //@     decreases len(m) - idx()
 
 //@ func (m mask) not()
